@@ -10,11 +10,14 @@ from ..rules_dep import run_dep, run_err_both
 
 SELF, SPAN = ("param", 1, "self"), ("param", 2, "span")
 
+from ..rules_pair import ym_pair
+
 
 def run(ctx, rep):
     run_dep(ctx, rep, "C08")
     run_err_both(ctx, rep, "C08")
     prog = ctx.prog("Q")
+    ym_pair(rep, prog, floor=15)
     rep.notes.append("Does not decide equality with wide-integer reference arithmetic in general.")
     pipeline(rep, prog)
     saturating(rep, prog)
